@@ -66,6 +66,15 @@ class Binder:
         if mm:
             tname = 'X' if mm.group(1) == 'l' else 'Y'
             n_o = sum(1 for s in idx if space_of(s) == 'o')
+            # u[lr]<n>: n-th block of the amplitude vector = n-th excitation
+            # class of the ADC variant (ph -> 1, pphh -> 2; h -> 1, phh -> 2;
+            # hh -> 1, phhh -> 2; ...)
+            n_v = len(idx) - n_o
+            cls = min(n_o, n_v) + (1 if n_o != n_v else 0)
+            if int(mm.group(2)) != cls:
+                raise InterpError(f'{name} addresses block {mm.group(2)} of the '
+                                  f'amplitude vector, the operand with indices '
+                                  f'{idx} is block {cls}')
             lo, up = doms[:n_o], doms[n_o:]
             arr = m.tensor_block('anti', tname, up, lo)
             k = len(up)
